@@ -30,6 +30,10 @@ class C02(SessionCheck):
         # the transport can accept no more bytes; the session must FAIL (error to the pending request, disconnected), not sit there
         for tr in (['unix', 'tls'] if tier == 'thorough' else ['unix']):
             out.append({'kind': 'stall', 'transport': tr, 'size': 6 * 1024 * 1024, 'timeout': 1.5})
+        # SSH: the NETCONF subsystem writes to its stderr (a warning of the server program) between two requests: every message handed to
+        # the session afterwards must still reach the wire, and none of those octets may end up in the stream
+        for i in range(3 if tier == 'quick' else 24):
+            out.append({'kind': 'stderr', 'before': i % 3, 'after': 1 + i % 2, 'octets': [20, 5000, 1][i % 3], 'base11': i % 2 == 0})
         return out
 
     def run_stall(self, case):
@@ -37,6 +41,9 @@ class C02(SessionCheck):
         return e2e.run_stall(case)
 
     def run_impl(self, case):
+        if case.get('kind') == 'stderr':
+            from impl import e2e
+            return e2e.run_stderr(case)
         if case.get('kind') == 'stall':
             return self.run_stall(case)
         if case.get('kind') == 'write':
@@ -98,7 +105,7 @@ class C02(SessionCheck):
         return SessionCheck.run_impl(self, case)
 
     def model_lines(self, case):
-        if case.get('kind') == 'stall':
+        if case.get('kind') in ('stall', 'stderr'):
             return []
         if case.get('kind') == 'write':
             from oracle.framing_spec import enc10
@@ -109,7 +116,7 @@ class C02(SessionCheck):
         return SessionCheck.model_lines(self, case)
 
     def model_obs(self, case, outs):
-        if case.get('kind') == 'stall':
+        if case.get('kind') in ('stall', 'stderr'):
             return None
         if case.get('kind') == 'write':
             w, st = outs[1].split(' ')
@@ -117,7 +124,7 @@ class C02(SessionCheck):
         return SessionCheck.model_obs(self, case, outs)
 
     def compare(self, case, io, mo):
-        if case.get('kind') == 'stall':
+        if case.get('kind') in ('stall', 'stderr'):
             return None
         if case.get('kind') == 'write':
             if mo is None:
@@ -128,13 +135,22 @@ class C02(SessionCheck):
         return SessionCheck.compare(self, case, io, mo)
 
     def nontrivial(self, case, io):
-        if case.get('kind') == 'stall':
+        if case.get('kind') in ('stall', 'stderr'):
             return True
         if case.get('kind') == 'write':
             return len(case['script']) >= 2
         return SessionCheck.nontrivial(self, case, io)
 
     def oracle(self, case, io):
+        if case.get('kind') == 'stderr':
+            want = case['before'] + case['after']
+            if io.get('server_requests') != want or io.get('failed'):
+                return ('C02:message-not-written-after-stderr-output', 'SSH: the subsystem wrote %d octets to stderr after request %d of %d (base:1.%d); the server '
+                        'then received %s of the %d requests handed to the session; calls: %s' % (case['octets'], case['before'], want, 1 if case['base11'] else 0,
+                                                                                               io.get('server_requests'), want, io.get('failed')))
+            if io.get('foreign'):
+                return ('C02:stderr-octets-in-stream', 'stderr output of the subsystem reached the NETCONF stream: %s' % io['foreign'])
+            return None
         if case.get('kind') == 'stall':
             if 'harness_error' in io:
                 return ('C02:harness', io['harness_error'])
